@@ -110,6 +110,22 @@ Qed.
 Lemma tys_eqb_refl l : tys_eqb l l = true.
 Proof. apply tys_eqb_spec. reflexivity. Qed.
 
+Lemma ty_eqb_sym a b : ty_eqb a b = ty_eqb b a.
+Proof.
+  destruct (ty_eqb b a) eqn:E.
+  - apply ty_eqb_spec in E. subst. apply ty_eqb_refl.
+  - destruct (ty_eqb a b) eqn:E'; [|reflexivity]. apply ty_eqb_spec in E'. subst.
+    rewrite ty_eqb_refl in E. discriminate.
+Qed.
+
+Lemma tys_eqb_sym a b : tys_eqb a b = tys_eqb b a.
+Proof.
+  destruct (tys_eqb b a) eqn:E.
+  - apply tys_eqb_spec in E. subst. apply tys_eqb_refl.
+  - destruct (tys_eqb a b) eqn:E'; [|reflexivity]. apply tys_eqb_spec in E'. subst.
+    rewrite tys_eqb_refl in E. discriminate.
+Qed.
+
 Lemma stype_eqb_spec a b : stype_eqb a b = true <-> a = b.
 Proof.
   unfold stype_eqb. rewrite !andb_true_iff, tys_eqb_spec, Nat.eqb_eq, Z.eqb_eq.
